@@ -192,27 +192,13 @@ func runHandler(d desc) hlib.Case {
 	c := hlib.Case{Kind: "handler", Size: total}
 	c.Coq = hlib.App("CHandler", hlib.N(uint64(d.Kind)), hlib.Z(int64(d.BL)), hlib.Z(int64(d.OL)), bsList(ae), bs([]byte(d.CT)), bs([]byte(d.PreCE)),
 		bsList(varyIn), hlib.Bool(d.Streamed), hlib.List(chunks), bs(ce), bsList(vary), hlib.Bool(oErr), hlib.Bool(decoded))
-	// known finding class: an existing Vary value that contains "Accept-Encoding" only as part of another member
-	if string(ce) != d.PreCE && len(d.Vary) > 0 && strings.Contains(d.Vary[0], "Accept-Encoding") && !varyListsAE(d.Vary) {
-		c.Key = "vary-substring"
-	}
+	// (the former vary-substring finding, repaired in f11ef83: `Vary: X-Accept-Encoding` inputs stay in the generator)
 	c.Sig = fmt.Sprintf("handler:k%d:ce=%s:pre=%s:s%v:sz%s:v%d:ct%v", d.Kind, ce, d.PreCE, d.Streamed, sizeClass(total), len(vary), d.CT != "")
 	if total > 1<<16 {
 		sum := sha256.Sum256(body)
 		c.Sig += fmt.Sprintf(":sha%x", sum[:4])
 	}
 	return c
-}
-
-func varyListsAE(lines []string) bool {
-	for _, l := range lines {
-		for _, e := range strings.Split(l, ",") {
-			if strings.EqualFold(strings.Trim(e, " \t"), "Accept-Encoding") {
-				return true
-			}
-		}
-	}
-	return false
 }
 
 func sizeClass(n int) string {
@@ -318,9 +304,7 @@ func runSat(d desc) hlib.Case {
 	c := hlib.Case{Kind: "sat-" + r.Scenario, Size: r.N}
 	c.Coq = hlib.App("CSat", hlib.N(uint64(scenarioIDs[r.Scenario])), hlib.N(uint64(codingIndex(r.Coding))), hlib.Z(int64(r.Level)),
 		hlib.Z(int64(r.N)), hlib.Z(int64(r.Bad)), hlib.Z(int64(r.Errors)), hlib.Bool(r.Full))
-	if r.Scenario == "writer-close-dropped" || r.Scenario == "stream-close-dropped" {
-		c.Key = "stackless-writer-close-dropped"
-	}
+	// (writer-close-dropped / stream-close-dropped reproduced the finding repaired in 0c40a4c; now they must pass)
 	c.Sig = fmt.Sprintf("sat:%s:%s:bad%v:err%v", r.Scenario, r.Coding, r.Bad > 0, r.Errors > 0)
 	if r.Note != "" {
 		fmt.Fprintf(os.Stderr, "c22 sat %s/%s: %s\n", r.Scenario, r.Coding, r.Note)
